@@ -12,40 +12,73 @@ import FordModel.Lemmas.DisplayLinks
 namespace Ford.C05
 open Ford Ford.Display Ford.Display.Spec Ford.Generated
 
-/-- Tie to the source (regenerated on every run): the three `prune()` methods have exactly the
-    shape the model interprets - one early-return guard (`proc` with `proc_internals` off) in
-    `FortranCodeUnit.prune`, none in the others, no statement outside the recognised shapes, the
-    submodule-only filters under `isinstance(self, FortranSubmodule)`, every `ranklist` member
-    pruned - and the hand-modelled functions `_set_display`, `_should_display`, `filter_display`,
-    `FortranBase.__str__` are the ones the model was written against. -/
-theorem source_shape_pinned :
-    C05.codeUnitGuard = "self.obj == 'proc' and (not self.meta.proc_internals)"
-    ∧ C05.dtypeGuard = "" ∧ C05.blockDataGuard = ""
-    ∧ C05.codeUnitOther = [] ∧ C05.dtypeOther = [] ∧ C05.blockDataOther = []
-    ∧ C05.codeUnitCondFiltered.map (·.1) = ["isinstance(self, FortranSubmodule)", "isinstance(self, FortranSubmodule)", "isinstance(self, FortranSubmodule)"]
-    ∧ C05.hasPrune = ["FortranBlockData", "FortranCodeUnit", "FortranType"]
-    ∧ C05.pruneLoop = "if not isinstance(container, str):\n    container.prune()"
-    ∧ C05.setDisplayPin = "366dfa0e55ad3a51" ∧ C05.shouldDisplayPin = "657947f9634c6cb8"
-    ∧ C05.filterDisplayPin = "255395ecf21e15e7" ∧ C05.strPin = "8828a39a0deba104" := by decide
+/-- Tie to the source (re-probed on every run): the real `prune()` of every concrete class - run on an object of
+    the probe project whose child lists hold a member to keep, a private and an undocumented one, with
+    `proc_internals` off and on - does to *every* child list exactly what the model's `pruneKids` does with the
+    tables: the early return of a procedure (`subroutine`, `function`, `module procedure` implementation - and of
+    nothing else) with `proc_internals` off, the lists emptied there, the lists filtered, the three lists filtered
+    for submodules only, what is only marked `visible` and what is marked and pruned in turn.  The tables themselves
+    are read off these rows, so this also says that all classes sharing a `prune()` behave alike. -/
+theorem prune_probe_matches_model : C05.pruneProbe.all pruneRowOk = true := by decide +kernel
 
-/-- Tie to the source for the entity kinds of round 3 (regenerated on every run): where namelists get
-    their pages (`Project._fortran_file`: directly from top-level procedures and programs, through
+/-- The probe covered every class that has a `prune()` (both settings of `proc_internals`), the three known
+    definitions are the only ones, and nothing the probes saw was left unexplained. -/
+theorem source_shape_pinned :
+    C05.pruneProbe.map (fun r => (r.1, r.2.1)) =
+      [("FortranBlockData", false), ("FortranBlockData", true), ("FortranFunction", false), ("FortranFunction", true),
+       ("FortranModule", false), ("FortranModule", true),
+       ("FortranModuleProcedureImplementation", false), ("FortranModuleProcedureImplementation", true),
+       ("FortranProgram", false), ("FortranProgram", true), ("FortranSubmodule", false), ("FortranSubmodule", true),
+       ("FortranSubroutine", false), ("FortranSubroutine", true), ("FortranType", false), ("FortranType", true)]
+    ∧ C05.pruneClasses.map (·.1) =
+      ["FortranBlockData", "FortranCodeUnit", "FortranFunction", "FortranModule", "FortranModuleProcedureImplementation",
+       "FortranProcedure", "FortranProgram", "FortranSubmodule", "FortranSubroutine", "FortranType"]
+    ∧ C05.probeAnomalies = []
+    ∧ C05.codeUnitCondFiltered.map (·.1) = ["FortranSubmodule", "FortranSubmodule", "FortranSubmodule"]
+    ∧ C05.hasPrune = ["FortranBlockData", "FortranCodeUnit", "FortranType"]
+    ∧ C05.setDisplayDefinedIn = ["FortranBase"] ∧ C05.shouldDisplayDefinedIn = ["FortranBase"]
+    ∧ C05.filterDisplayDefinedIn = ["FortranBase"] ∧ C05.strDefinedIn = ["FortranBase"]
+    ∧ C05.pruneLoopProbe = [("modules", "1"), ("submodules", "1"), ("functions", "1"), ("subroutines", "1"),
+        ("programs", "1"), ("blockdata", "1")]
+    ∧ C05.pruneAfterCorrelate = true := by decide
+
+/-- Tie to the source (re-probed on every run): the real `_set_display`, run on an entity and on a source file of
+    the probe project for every metadata list of up to two words (three for `protected` / `none` / unknown) in
+    either letter case and three inherited lists, leaves exactly the list `setDisplay` computes - and it is the
+    inherited list *object* exactly when the model says the entity inherits (`setDisplayInherits`). -/
+theorem set_display_probe_matches_model :
+    C05.setDisplayProbe.all setDisplayRowOk = true ∧ C05.setDisplayProbe.length = 348 := by decide +kernel
+
+/-- Tie to the source (re-probed on every run): all classes share one `_should_display` / `filter_display`, and its
+    truth table over `hide_undoc` x documented x permission x every subset of {public, protected, private} is
+    `shouldDisplay`. -/
+theorem should_display_probe_matches_model :
+    C05.shouldDisplayProbe.length = 1
+    ∧ C05.shouldDisplayProbe.all (fun g => g.2.length == 128 && g.2.all shouldDisplayRowOk) = true := by decide +kernel
+
+/-- Tie to the source (re-probed on every run): `str(entity)` is a link exactly when the entity has a URL and its
+    `visible` flag is not false - the only gate between an unselected entity and a link to its page. -/
+theorem str_probe_links_only_visible :
+    C05.strProbe.all strRowOk = true ∧ C05.strProbe.length = 12 := by decide
+
+/-- Tie to the source for the entity kinds of round 3 (re-probed on every run): where namelists get
+    their pages (`Project(...)` on the probe project: directly from top-level procedures and programs, through
     `routines` from modules, submodules and programs; never from block data), what `routines` iterates,
     which page templates render an entity's namelists, which classes are `visible` from their construction
-    on, the two permission tests that decide which members an extending type inherits, pins of the
-    three `correlate` methods that move entities between lists before any `prune()` runs, and the only
-    `correlate` that sets `visible` (block data: its types; or none - candidate repair
+    on, which members an extending type carries after `correlate` (= the model's `inheritable`; its own members
+    last), that common-block members leave the parent's `variables` and namelist variables are the objects of the
+    scope, and what `correlate` alone makes `visible` (block data: its types; or nothing - candidate repair
     `fixes/C05-blockdata-types-visible.diff`). -/
 theorem source_shape_pinned_round3 :
     C05.namelistCollect = [("modules", false, true), ("submodules", false, true), ("functions", true, false),
       ("subroutines", true, false), ("programs", true, true), ("blockdata", false, false)]
     ∧ C05.routinesLists = ["functions", "subroutines", "modprocedures"]
     ∧ C05.namelistSections = ["proc_page.html", "prog_page.html"]
-    ∧ C05.visibleAtInit = ["FortranBlockData", "FortranCommon", "FortranModule", "FortranNamelist"]
-    ∧ C05.inheritTests = ["var.permission == 'public'", "bp.permission == 'private'"]
-    ∧ C05.commonCorrelatePin = "f0f9d51e38f21465" ∧ C05.namelistCorrelatePin = "0e6c9b5eb5f6f79d"
-    ∧ C05.typeCorrelatePin = "ace6d87c642977db"
-    ∧ (C05.visibleInCorrelate = [("FortranBlockData", "typeorder")] ∨ C05.visibleInCorrelate = []) := by decide
+    ∧ C05.visibleAtInit = ["FortranBlockData", "FortranCommon", "FortranModule", "FortranNamelist", "FortranProgram",
+        "FortranSourceFile", "FortranSubmodule"]
+    ∧ C05.inheritProbe.all inheritRowOk = true ∧ C05.inheritProbe.length = 4 ∧ C05.inheritOwnLast = true
+    ∧ C05.commonMovesMembers = true ∧ C05.namelistResolves = true
+    ∧ (C05.visibleInCorrelate = [("FortranBlockData", "FortranType")] ∨ C05.visibleInCorrelate = []) := by decide
 
 /-- Every child list that holds entities with an accessibility is passed through
     `filter_display` by the `prune()` of every class that can contain it (and the lists of what
@@ -258,13 +291,14 @@ theorem pages_are_linkable (cfg : Cfg) (p : List Ent) (hw : wfProject p = true) 
 
 /-! ### `[[name]]` links in doc comments -/
 
-/-- Tie to the source (regenerated on every run): a `[[name]]` is resolved by exactly the code the
-    model was written against - `FordLinkProcessor.convert_link`, `FortranBase.find_child` over
-    `FortranBase.children`, `_find_in_list`, `Project.find`, `get_url` / `get_dir` - and **no class
-    overrides** `find_child`, `children`, `iterator`, `get_url`, `find` or `convert_link` (an override
-    would be a lookup the model does not have); `get_dir` is defined in the four known classes.
-    `convert_link` is one of the two versions the model has a switch for: the code as it is, or
-    the candidate repair with its helper `_has_written_page` (`LinkEnv.checksPage`). -/
+/-- Tie to the source (re-probed on every run): a `[[name]]` is resolved by exactly the mechanism the
+    model was written against.  **No class overrides** `find_child`, `children`, `iterator`, `get_url`, `find` or
+    `convert_link` (an override would be a lookup the model does not have); `get_dir` is defined in the four known
+    classes.  `_find_in_list` returns the first member whose name matches case-insensitively and skips strings.
+    `FortranBase.find_child`, run on stubs: a bare name is looked up in every list of `childrenLists` and every
+    attribute of `nonListChildren` (the order `children` yields them in, first list first), an entity word in the
+    list `SUBLINK_TYPES` gives it; `Project.find` on a stub project: a bare name in every list of `LINK_TYPES` in
+    that order, an entity word in its list, a child through the hit's `find_child`. -/
 theorem link_lookup_pinned :
     C05.findChildDefinedIn = ["sourceform:FortranBase"]
     ∧ C05.childrenDefinedIn = ["sourceform:FortranBase"]
@@ -274,11 +308,111 @@ theorem link_lookup_pinned :
     ∧ C05.findDefinedIn = ["fortran_project:Project"]
     ∧ C05.convertLinkDefinedIn = ["_markdown:FordLinkProcessor"]
     ∧ C05.nonListChildren = ["constructor", "procedure", "retvar"]
-    ∧ C05.findChildPin = "1b45a2978fe933ee" ∧ C05.findInListPin = "c8d0d02a7c62fd9a"
-    ∧ C05.projectFindPin = "9b14871416a37053"
-    ∧ C05.getUrlPin = "78b107b183a1e8a4" ∧ C05.getDirPin = "3fad1df189b346bf"
-    ∧ ((C05.convertLinkPin = "8626d3df74768258" ∧ C05.hasWrittenPagePin = "")
-       ∨ (C05.convertLinkPin = "36e31de78f46ca73" ∧ C05.hasWrittenPagePin = "18774cbfbb1007ee")) := by decide
+    ∧ C05.findInListProbe = [("first-of-two-equal", 2), ("case-insensitive-item", 2), ("case-insensitive-query", 2),
+        ("strings-are-skipped", 0), ("not-found", 0), ("no-prefix-match", 2), ("empty", 0), ("generator", 2)]
+    ∧ C05.findChildProbe.all findChildRowOk = true
+    ∧ (probeRowsOf "bare-list" C05.findChildProbe).map (·.1) = C05.childrenLists
+    ∧ (probeRowsOf "bare-single" C05.findChildProbe).map (·.1) = C05.nonListChildren
+    ∧ probeRowsOf "entity" C05.findChildProbe = C05.sublinkTypes
+    ∧ (probeRowsOf "bare-first-list-wins" C05.findChildProbe).length = 1
+    ∧ C05.projectFindProbe.all projectFindRowOk = true
+    ∧ (probeRowsOf "bare-list" C05.projectFindProbe).map (·.1) = (C05.linkTypes.map (·.2)).eraseDups
+    ∧ probeRowsOf "entity" C05.projectFindProbe = C05.linkTypes
+    ∧ (probeRowsOf "bare-first-list-wins" C05.projectFindProbe).length = 1
+    ∧ (probeRowsOf "child-asks-the-hit" C05.projectFindProbe).length = 1 := by decide
+
+/-- Tie to the source (re-probed on every run): `FordLinkProcessor.convert_link`, run through a real Markdown
+    instance on scripted contexts and a scripted project, makes exactly the lookups of the model's `resolve`, in its
+    order - the context's `find_child`, then the context's parent's, then `Project.find` (a `ValueError` of the
+    first two counts as a miss; without a context only the project is asked); for `[[a:b]]` the hit's own
+    `find_child`, whose `ValueError` is passed on, and when the child is found nowhere the page of `a` - and renders
+    a link to the hit's URL (relative; an external URL as it is), the plain name when nothing is found, an error
+    when the hit has no URL.  The last two cases are the model's switch `LinkEnv.checksPage`: the code as it is
+    links to a hit whose page owner is not `visible`, the candidate repair
+    (`fixes/C05-doc-link-hidden-page.diff`) prints the plain name. -/
+theorem convert_link_probe_pinned :
+    C05.convertLinkProbe.take 15 =
+      [("context-hit", "ctx.find_child(hit,None) => href=../proc/hit.html text=hit"),
+       ("parent-hit", "ctx.find_child(hit,None); par.find_child(hit,None) => href=../proc/hit.html text=hit"),
+       ("project-hit", "ctx.find_child(hit,None); par.find_child(hit,None); project.find(hit,None,None,None) => href=../proc/hit.html text=hit"),
+       ("nowhere", "ctx.find_child(hit,None); par.find_child(hit,None); project.find(hit,None,None,None) => plain text=hit"),
+       ("context-raises-valueerror", "ctx.find_child(hit,type); par.find_child(hit,type) => href=../proc/hit.html text=hit"),
+       ("no-parent-context-hit", "ctx.find_child(hit,None) => href=../proc/hit.html text=hit"),
+       ("no-parent-project-hit", "ctx.find_child(hit,None); project.find(hit,None,None,None) => href=../proc/hit.html text=hit"),
+       ("no-context", "project.find(hit,None,None,None) => href=proc/hit.html text=hit"),
+       ("child-of-context-hit", "ctx.find_child(hit,None); hit.find_child(kid,None) => href=../proc/hit.html#variable-kid text=kid"),
+       ("child-missing-under-context-hit", "ctx.find_child(hit,None); hit.find_child(nokid,None); project.find(hit,None,nokid,None); project.find(hit,None,None,None) => href=../proc/hit.html text=hit"),
+       ("child-lookup-raises", "ctx.find_child(hit,None); hit.find_child(kid,variable) => ValueError"),
+       ("child-through-project", "ctx.find_child(hit,None); par.find_child(hit,None); project.find(hit,None,kid,None) => href=../proc/hit.html#variable-kid text=kid"),
+       ("child-missing-in-project", "ctx.find_child(hit,None); par.find_child(hit,None); project.find(hit,None,nokid,None); project.find(hit,None,None,None) => href=../proc/hit.html text=hit"),
+       ("hit-without-url", "ctx.find_child(hit,None) => RuntimeError"),
+       ("external-url-kept", "ctx.find_child(hit,None) => href=https://example.org/x.html text=hit")]
+    ∧ (C05.convertLinkProbe.drop 15 =
+        [("hit-page-not-visible", "ctx.find_child(hit,None) => href=../proc/hit.html text=hit"),
+         ("hit-on-page-of-invisible-owner", "ctx.find_child(hit,None) => href=../proc/hp.html#variable-hit text=hit")]
+       ∨ C05.convertLinkProbe.drop 15 =
+        [("hit-page-not-visible", "ctx.find_child(hit,None) => plain text=hit"),
+         ("hit-on-page-of-invisible-owner", "ctx.find_child(hit,None) => plain text=hit")]) := by decide +kernel
+
+/-- Tie to the source (re-probed on every run): `get_dir` / `get_url` of the real objects of the probe project, per
+    (class, class of the parent): files, modules, submodules, programs, block data units and namelists always have a
+    page of their own; derived types, interfaces and procedures exactly when they stand directly in a file, module,
+    submodule, program or block data unit (an interface body: in its interface's directory); everything else is an
+    anchor on the page of the nearest ancestor that has one, or has no URL at all (a type inside a procedure and
+    its components, the names listed in a generic interface).  This is the "page of a hit" of the link model. -/
+theorem url_probe_pinned :
+    C05.urlProbe =
+      [
+      ("FortranBlockData", "FortranSourceFile", "blockdata", "page"),
+      ("FortranBoundProcedure", "FortranType", "-", "anchor:FortranType"),
+      ("FortranCommon", "FortranBlockData", "-", "anchor:FortranBlockData"),
+      ("FortranCommon", "FortranModule", "-", "anchor:FortranModule"),
+      ("FortranEnum", "FortranModule", "-", "anchor:FortranModule"),
+      ("FortranFinalProc", "FortranType", "-", "anchor:FortranType"),
+      ("FortranFunction", "FortranFunction", "-", "anchor:FortranFunction"),
+      ("FortranFunction", "FortranModule", "proc", "page"),
+      ("FortranFunction", "FortranModuleProcedureInterface", "interface", "page"),
+      ("FortranFunction", "FortranProgram", "proc", "page"),
+      ("FortranFunction", "FortranSourceFile", "proc", "page"),
+      ("FortranFunction", "FortranSubmodule", "proc", "page"),
+      ("FortranInterface", "FortranModule", "interface", "page"),
+      ("FortranInterface", "FortranProgram", "interface", "page"),
+      ("FortranInterface", "FortranSubmodule", "interface", "page"),
+      ("FortranModule", "FortranSourceFile", "module", "page"),
+      ("FortranModuleProcedureImplementation", "FortranSubmodule", "proc", "page"),
+      ("FortranModuleProcedureInterface", "FortranModule", "interface", "page"),
+      ("FortranModuleProcedureInterface", "FortranProgram", "interface", "page"),
+      ("FortranModuleProcedureInterface", "FortranSubmodule", "interface", "page"),
+      ("FortranModuleProcedureReference", "FortranInterface", "-", "none"),
+      ("FortranNamelist", "FortranFunction", "namelist", "page"),
+      ("FortranNamelist", "FortranModule", "namelist", "page"),
+      ("FortranNamelist", "FortranModuleProcedureImplementation", "namelist", "page"),
+      ("FortranNamelist", "FortranProgram", "namelist", "page"),
+      ("FortranNamelist", "FortranSubmodule", "namelist", "page"),
+      ("FortranNamelist", "FortranSubroutine", "namelist", "page"),
+      ("FortranProgram", "FortranSourceFile", "program", "page"),
+      ("FortranSourceFile", "-", "sourcefile", "page"),
+      ("FortranSubmodule", "FortranSourceFile", "module", "page"),
+      ("FortranSubroutine", "FortranModule", "proc", "page"),
+      ("FortranSubroutine", "FortranModuleProcedureInterface", "interface", "page"),
+      ("FortranSubroutine", "FortranProgram", "proc", "page"),
+      ("FortranSubroutine", "FortranSourceFile", "proc", "page"),
+      ("FortranSubroutine", "FortranSubmodule", "proc", "page"),
+      ("FortranSubroutine", "FortranSubroutine", "-", "anchor:FortranSubroutine"),
+      ("FortranType", "FortranBlockData", "type", "page"),
+      ("FortranType", "FortranModule", "type", "page"),
+      ("FortranType", "FortranProgram", "type", "page"),
+      ("FortranType", "FortranSubmodule", "type", "page"),
+      ("FortranType", "FortranSubroutine", "-", "none"),
+      ("FortranVariable", "FortranBlockData", "-", "anchor:FortranBlockData"),
+      ("FortranVariable", "FortranEnum", "-", "anchor:FortranModule"),
+      ("FortranVariable", "FortranFunction", "-", "anchor:FortranFunction"),
+      ("FortranVariable", "FortranModule", "-", "anchor:FortranModule"),
+      ("FortranVariable", "FortranModuleProcedureImplementation", "-", "anchor:FortranModuleProcedureImplementation"),
+      ("FortranVariable", "FortranProgram", "-", "anchor:FortranProgram"),
+      ("FortranVariable", "FortranSubmodule", "-", "anchor:FortranSubmodule"),
+      ("FortranVariable", "FortranSubroutine", "-", "anchor:FortranSubroutine"),
+      ("FortranVariable", "FortranType", "-", "none")] := by decide
 
 /-- Every list attribute `find_child` searches is one of the child lists of the entity tree
     (those `prune()` filters: `prune_lists_cover`; `common`, `namelists` and `enums`, which no `prune()`
@@ -378,7 +512,7 @@ theorem inherited_binding_links_to_unselected_type_witness :
     is neither selected nor written.  (Without the marking in `correlate` there is no link: the model reads the
     regenerated table.) -/
 theorem blockdata_extends_link_witness :
-    (C05.visibleInCorrelate = [("FortranBlockData", "typeorder")] →
+    (C05.visibleInCorrelate = [("FortranBlockData", "FortranType")] →
       extLinksOf wBlockDataExtends (pruneProject wCfgInt (inheritProject wBlockDataExtends 5))
         (pruneProject wCfgInt (inheritProject wBlockDataExtends 5)) = [(5, 3)])
     ∧ idsOf (pruneProject wCfgInt (inheritProject wBlockDataExtends 5)) = [1, 2, 5, 4]
